@@ -1,8 +1,1471 @@
-//! C10 — not built yet.
+//! C10 — a failed or interrupted pull never publishes a file, and never a partial one.
+//!
+//! Stages:
+//!  * `faults`  — a scripted FAKE SVS server (raw TCP, oracle.rs frames) injects every fault of a
+//!    table into every file puller / value-decoding puller; oracle = directory snapshot before/after.
+//!  * `crash`   — the pull runs in a CHILD process whose verif-hooks probe kills it (SIGKILL) at the
+//!    n-th occurrence of each named point; the parent compares directory snapshots.
+//!  * `strace`  — child pulls under `strace -f`; the syscall trace is checked against
+//!    write*(tmp) -> fsync(tmp) -> rename(tmp, dest), and "no rename onto dest on a failing run".
+//!  * `inject`  — `strace -e inject=<syscall>:signal=SIGKILL:when=N` as a hook-independent source of
+//!    crash points.
+//!  * `crash-child` — internal (the child).
+
+#[cfg(not(feature = "net"))]
 use crate::common::*;
 
+#[cfg(not(feature = "net"))]
 pub fn run(args: &Args) -> Report {
-    let mut rep = Report::new(args, "c10-stub", "stub");
-    rep.inconclusive("check not implemented");
+    let mut rep = Report::new(args, "c10", "needs the net feature");
+    rep.inconclusive("built without the `net` feature");
     rep
+}
+
+#[cfg(feature = "net")]
+pub use imp::run;
+
+#[cfg(feature = "net")]
+mod imp {
+    use crate::c09::svs::{self, FakeServer, Fnv, Script, Snapshot, Step};
+    use crate::common::*;
+    use repe::value_stream::{
+        pull_to_beve_file, pull_to_beve_zst_file, pull_to_file, pull_to_file_async, pull_to_file_trailer_verified, pull_to_file_trailer_verified_async,
+        pull_to_file_verified_async, pull_to_vec, pull_to_vec_async, pull_typed_slice, pull_typed_slice_async, pull_value, pull_value_async,
+    };
+    use repe::{AsyncClient, Client, RepeError};
+    use serde_json::{Value, json};
+    use std::collections::BTreeMap;
+    use std::net::SocketAddr;
+    use std::path::{Path, PathBuf};
+    use std::sync::atomic::{AtomicU64, Ordering};
+    use std::sync::{Arc, Mutex, mpsc};
+    use std::time::{Duration, Instant};
+
+    const DEST: &str = "out.bin";
+    const TEMP: &str = "out.bin.svspart";
+    const PRIOR: &[u8] = b"PRIOR CONTENT of the destination - must survive any failed pull\n";
+    const STALE: &[u8] = b"stale temp from an earlier crashed pull";
+    const RES: &str = "blob";
+
+    // ------------------------------------------------------------------ the tables
+
+    #[derive(Clone, Copy, Debug, PartialEq, Eq, Hash, PartialOrd, Ord)]
+    pub enum Puller {
+        ToFile,
+        ToBeveFile,
+        ToBeveZst,
+        TrailerVerified,
+        ToFileAsync,
+        VerifiedAsync,
+        TrailerVerifiedAsync,
+        // value-decoding pulls (no file): must return Err on a truncated stream
+        Value,
+        ToVec,
+        TypedSlice,
+        ValueAsync,
+        ToVecAsync,
+        TypedSliceAsync,
+    }
+    use Puller::*;
+    const FILE_PULLERS: [Puller; 7] = [ToFile, ToBeveFile, ToBeveZst, TrailerVerified, ToFileAsync, VerifiedAsync, TrailerVerifiedAsync];
+    const DECODE_PULLERS: [Puller; 6] = [Value, ToVec, TypedSlice, ValueAsync, ToVecAsync, TypedSliceAsync];
+
+    impl Puller {
+        fn name(&self) -> &'static str {
+            match self {
+                ToFile => "pull_to_file",
+                ToBeveFile => "pull_to_beve_file",
+                ToBeveZst => "pull_to_beve_zst_file",
+                TrailerVerified => "pull_to_file_trailer_verified",
+                ToFileAsync => "pull_to_file_async",
+                VerifiedAsync => "pull_to_file_verified_async",
+                TrailerVerifiedAsync => "pull_to_file_trailer_verified_async",
+                Value => "pull_value",
+                ToVec => "pull_to_vec",
+                TypedSlice => "pull_typed_slice",
+                ValueAsync => "pull_value_async",
+                ToVecAsync => "pull_to_vec_async",
+                TypedSliceAsync => "pull_typed_slice_async",
+            }
+        }
+        fn from_name(s: &str) -> Option<Puller> {
+            FILE_PULLERS.iter().chain(DECODE_PULLERS.iter()).copied().find(|p| p.name() == s)
+        }
+        fn is_async(&self) -> bool {
+            matches!(self, ToFileAsync | VerifiedAsync | TrailerVerifiedAsync | ValueAsync | ToVecAsync | TypedSliceAsync)
+        }
+        fn is_file(&self) -> bool {
+            FILE_PULLERS.contains(self)
+        }
+        fn trailer(&self) -> bool {
+            matches!(self, TrailerVerified | TrailerVerifiedAsync)
+        }
+        fn verified(&self) -> bool {
+            matches!(self, TrailerVerified | TrailerVerifiedAsync | VerifiedAsync)
+        }
+        fn zstd_only(&self) -> bool {
+            matches!(self, ToBeveFile | ToBeveZst)
+        }
+        /// does the puller run the zstd decoder over the stream
+        fn decodes_zstd(&self) -> bool {
+            !matches!(self, ToBeveZst)
+        }
+        fn compressions(&self) -> &'static [bool] {
+            if self.zstd_only() { &[true] } else { &[false, true] }
+        }
+    }
+
+    #[derive(Clone, Debug, PartialEq, Eq, Hash)]
+    pub enum Fault {
+        None,
+        /// k good chunks, then an error response
+        ErrAfterChunks(usize),
+        /// exactly d stream bytes delivered (re-chunked), then an error response
+        ErrAtByte(usize),
+        CutAfterOpen,
+        /// connection closed right after the k-th `next` response
+        CutAfterResp(usize),
+        /// k good chunks, then the connection closes instead of an answer
+        CutNoReply(usize),
+        /// the (k+1)-th chunk response is cut in the middle of the frame
+        CutMidFrame(usize),
+        /// every chunk arrives with last=0, then the server closes
+        NoEndClose,
+        /// every chunk arrives with last=0, then the server answers with an error
+        NoEndError,
+        OpenError,
+        BadVersion,
+        BadCompression,
+        /// stream tags the chosen output cannot honour
+        TagMismatch,
+        VerifyReject,
+        /// trailer_len exceeds the whole stream
+        TrailerTooLong,
+        /// zstd frame truncated to t bytes but delivered with an end marker
+        ZstdTruncated(usize),
+    }
+
+    impl Fault {
+        fn class(&self) -> &'static str {
+            match self {
+                Fault::None => "none",
+                Fault::ErrAfterChunks(_) => "producer-error-after-chunk",
+                Fault::ErrAtByte(_) => "producer-error-at-byte",
+                Fault::CutAfterOpen => "cut-after-open",
+                Fault::CutAfterResp(_) => "cut-after-response",
+                Fault::CutNoReply(_) => "cut-instead-of-reply",
+                Fault::CutMidFrame(_) => "cut-mid-frame",
+                Fault::NoEndClose => "no-end-marker-close",
+                Fault::NoEndError => "no-end-marker-error",
+                Fault::OpenError => "open-error",
+                Fault::BadVersion => "bad-version",
+                Fault::BadCompression => "bad-compression-tag",
+                Fault::TagMismatch => "tag-mismatch",
+                Fault::VerifyReject => "verify-reject",
+                Fault::TrailerTooLong => "trailer-longer-than-stream",
+                Fault::ZstdTruncated(_) => "zstd-frame-truncated",
+            }
+        }
+    }
+
+    #[derive(Clone, Copy, Debug, PartialEq, Eq, Hash)]
+    pub enum DestState {
+        Absent,
+        Existing,
+        ExistingWithStaleTemp,
+    }
+
+    /// What is streamed and what a successful pull must publish.
+    pub struct Content {
+        logical: Vec<u8>,
+        wire: Vec<u8>,
+        publish: Vec<u8>,
+        format: u16,
+        trailer_len: usize,
+    }
+
+    fn gen_string(seed: u64, n: usize) -> String {
+        let mut r = Rng::new(seed ^ 0x57);
+        r.bytes(n).iter().map(|b| (b'a' + b % 26) as char).collect()
+    }
+
+    fn content_for(p: Puller, zstd: bool, seed: u64, n: usize) -> Content {
+        let (logical, publish, format, trailer_len) = match p {
+            ToFile | ToFileAsync | VerifiedAsync | ToVec | ToVecAsync => {
+                let l = svs::payload(seed, n, seed & 1 == 1);
+                (l.clone(), l, svs::FMT_RAW, 0)
+            }
+            ToBeveFile | ToBeveZst | Value | ValueAsync => {
+                let l = beve::to_vec(&gen_string(seed, n)).unwrap();
+                (l.clone(), l, svs::FMT_BEVE, 0)
+            }
+            TypedSlice | TypedSliceAsync => {
+                let mut r = Rng::new(seed);
+                let v: Vec<u16> = (0..n / 2).map(|_| r.next_u64() as u16).collect();
+                let l = beve::to_vec_typed_slice(&v);
+                (l.clone(), l, svs::FMT_BEVE, 0)
+            }
+            TrailerVerified | TrailerVerifiedAsync => {
+                let pl = svs::payload(seed, n, seed & 1 == 1);
+                let mut l = pl.clone();
+                l.extend_from_slice(&Fnv::of(&pl).to_le_bytes());
+                (l, pl, svs::FMT_RAW, 8)
+            }
+        };
+        let wire = if zstd { svs::zstd_compress(&logical) } else { logical.clone() };
+        let publish = if p == ToBeveZst { wire.clone() } else { publish };
+        Content { logical, wire, publish, format, trailer_len }
+    }
+
+    /// All faults applicable to (puller, compression) for a stream of `m` chunks of `chunk` bytes.
+    fn faults_for(p: Puller, zstd: bool, wire_len: usize, chunk: usize) -> Vec<Fault> {
+        let m = svs::split_chunks(&vec![0u8; wire_len], chunk).len();
+        let mut f = vec![Fault::None, Fault::CutAfterOpen, Fault::NoEndClose, Fault::NoEndError, Fault::OpenError, Fault::BadVersion, Fault::BadCompression];
+        for k in 0..m {
+            f.push(Fault::ErrAfterChunks(k));
+            f.push(Fault::CutNoReply(k));
+            f.push(Fault::CutMidFrame(k));
+        }
+        for k in 1..=m {
+            f.push(Fault::CutAfterResp(k));
+        }
+        let mut ds = vec![];
+        let mut b = chunk;
+        while b < wire_len {
+            ds.push(b - 1);
+            ds.push(b + 1);
+            b += chunk;
+        }
+        if wire_len > 0 {
+            ds.push(wire_len - 1);
+        }
+        ds.retain(|d| *d < wire_len);
+        ds.sort();
+        ds.dedup();
+        for d in ds {
+            f.push(Fault::ErrAtByte(d));
+        }
+        if p.verified() {
+            f.push(Fault::VerifyReject);
+        }
+        if p.trailer() {
+            f.push(Fault::TrailerTooLong);
+        }
+        if zstd && p.decodes_zstd() && wire_len > 2 {
+            for t in [wire_len - 1, wire_len / 2, 1] {
+                f.push(Fault::ZstdTruncated(t));
+            }
+        }
+        if matches!(p, ToBeveFile | ToBeveZst | Value | ValueAsync | TypedSlice | TypedSliceAsync) {
+            f.push(Fault::TagMismatch);
+        }
+        f.dedup();
+        f
+    }
+
+    /// Build the fake server's script. Returns (script, complete) where complete = the client is sent
+    /// the whole stream ending in an end marker.
+    fn script_for(p: Puller, zstd: bool, c: &Content, chunk: usize, fault: &Fault) -> (Script, bool) {
+        let chunks = svs::split_chunks(&c.wire, chunk);
+        let m = chunks.len();
+        let mut s = Script::clean(c.format, zstd as u8, chunks.clone());
+        let unmarked = |cs: &[Vec<u8>]| -> Vec<Step> { cs.iter().map(|b| Step::Chunk { bytes: b.clone(), last: false }).collect() };
+        let mut complete = false;
+        match fault {
+            Fault::None | Fault::VerifyReject | Fault::TrailerTooLong => complete = true,
+            Fault::ErrAfterChunks(k) => {
+                s.steps = unmarked(&chunks[..*k]);
+                s.steps.push(Step::Error("injected producer failure".into()));
+            }
+            Fault::ErrAtByte(d) => {
+                s.steps = if *d == 0 { vec![] } else { unmarked(&svs::split_chunks(&c.wire[..*d], chunk)) };
+                s.steps.push(Step::Error("injected producer failure".into()));
+            }
+            Fault::CutAfterOpen => s.cut_after_open = true,
+            Fault::CutAfterResp(k) => {
+                s.cut_after_responses = Some(*k);
+                complete = *k == m;
+            }
+            Fault::CutNoReply(k) => {
+                s.steps = unmarked(&chunks[..*k]);
+                s.steps.push(Step::CutNoReply);
+            }
+            Fault::CutMidFrame(k) => {
+                s.steps = unmarked(&chunks[..*k]);
+                s.steps.push(Step::CutMidFrame { bytes: chunks[*k].clone(), last: *k + 1 == m });
+            }
+            Fault::NoEndClose => {
+                s.steps = unmarked(&chunks);
+                s.exhausted_closes = true;
+            }
+            Fault::NoEndError => {
+                s.steps = unmarked(&chunks);
+                s.exhausted_closes = false;
+            }
+            Fault::OpenError => s.open_error = Some("svs open: unknown resource".into()),
+            Fault::BadVersion => s.version = 9,
+            Fault::BadCompression => s.compression = 7,
+            Fault::TagMismatch => {
+                if p.zstd_only() {
+                    s.compression = 0;
+                } else {
+                    s.format = svs::FMT_RAW;
+                }
+            }
+            Fault::ZstdTruncated(t) => {
+                let cs = svs::split_chunks(&c.wire[..*t], chunk);
+                s = Script::clean(c.format, zstd as u8, cs);
+            }
+        }
+        (s, complete)
+    }
+
+    // ------------------------------------------------------------------ invoking the pullers
+
+    #[derive(Debug)]
+    pub enum PullRes {
+        Published,
+        Bytes(Vec<u8>),
+    }
+
+    fn et(e: RepeError) -> String {
+        trunc(&e.to_string(), 200)
+    }
+
+    fn verify_trailer(reject: bool) -> impl FnOnce(Fnv, &[u8]) -> Result<(), RepeError> {
+        move |d: Fnv, trailer: &[u8]| {
+            if reject || d.0.to_le_bytes() != trailer {
+                Err(RepeError::Io(std::io::Error::new(std::io::ErrorKind::InvalidData, "digest trailer rejected")))
+            } else {
+                Ok(())
+            }
+        }
+    }
+
+    fn pull_sync(p: Puller, client: &Client, dest: &Path, reject: bool, trailer_len: usize) -> Result<PullRes, String> {
+        match p {
+            ToFile => pull_to_file(client, RES, dest).map(|_| PullRes::Published).map_err(et),
+            ToBeveFile => pull_to_beve_file(client, RES, dest).map(|_| PullRes::Published).map_err(et),
+            ToBeveZst => pull_to_beve_zst_file(client, RES, dest).map(|_| PullRes::Published).map_err(et),
+            TrailerVerified => pull_to_file_trailer_verified(client, RES, dest, trailer_len, Fnv::new(), verify_trailer(reject)).map(|_| PullRes::Published).map_err(et),
+            Value => pull_value::<String>(client, RES).map(|v| PullRes::Bytes(beve::to_vec(&v).unwrap())).map_err(et),
+            ToVec => pull_to_vec(client, RES).map(PullRes::Bytes).map_err(et),
+            TypedSlice => pull_typed_slice::<u16>(client, RES).map(|v| PullRes::Bytes(beve::to_vec_typed_slice(&v))).map_err(et),
+            _ => Err("not a sync puller".into()),
+        }
+    }
+
+    async fn pull_async(p: Puller, client: &AsyncClient, dest: &Path, reject: bool, trailer_len: usize, want_digest: u64) -> Result<PullRes, String> {
+        match p {
+            ToFileAsync => pull_to_file_async(client, RES, dest).await.map(|_| PullRes::Published).map_err(et),
+            VerifiedAsync => pull_to_file_verified_async(client, RES, dest, Fnv::new(), move |d: Fnv| {
+                if reject || d.0 != want_digest {
+                    Err(RepeError::Io(std::io::Error::new(std::io::ErrorKind::InvalidData, "content digest rejected")))
+                } else {
+                    Ok(())
+                }
+            })
+            .await
+            .map(|_| PullRes::Published)
+            .map_err(et),
+            TrailerVerifiedAsync => pull_to_file_trailer_verified_async(client, RES, dest, trailer_len, Fnv::new(), verify_trailer(reject)).await.map(|_| PullRes::Published).map_err(et),
+            ValueAsync => pull_value_async::<String, _>(client, RES).await.map(|v| PullRes::Bytes(beve::to_vec(&v).unwrap())).map_err(et),
+            ToVecAsync => pull_to_vec_async(client, RES).await.map(PullRes::Bytes).map_err(et),
+            TypedSliceAsync => pull_typed_slice_async::<u16, _>(client, RES).await.map(|v| PullRes::Bytes(beve::to_vec_typed_slice(&v))).map_err(et),
+            _ => Err("not an async puller".into()),
+        }
+    }
+
+    /// Run one pull against `addr`, bounded by a watchdog. Err(Hang) when the call did not return.
+    enum Ran {
+        Done(Result<PullRes, String>),
+        Hang,
+        Harness(String),
+    }
+
+    fn run_pull(rt: &Arc<tokio::runtime::Runtime>, p: Puller, addr: SocketAddr, dest: PathBuf, reject: bool, trailer_len: usize, want_digest: u64) -> Ran {
+        let limit = Duration::from_secs(15);
+        if p.is_async() {
+            rt.block_on(async move {
+                let fut = async {
+                    let client = match AsyncClient::connect(addr).await {
+                        Ok(c) => c,
+                        Err(e) => return Ran::Harness(format!("AsyncClient::connect: {e}")),
+                    };
+                    Ran::Done(pull_async(p, &client, &dest, reject, trailer_len, want_digest).await)
+                };
+                tokio::time::timeout(limit, fut).await.unwrap_or(Ran::Hang)
+            })
+        } else {
+            let (tx, rx) = mpsc::channel();
+            std::thread::spawn(move || {
+                let r = match Client::connect(addr) {
+                    Ok(client) => Ran::Done(pull_sync(p, &client, &dest, reject, trailer_len)),
+                    Err(e) => Ran::Harness(format!("Client::connect: {e}")),
+                };
+                let _ = tx.send(r);
+            });
+            rx.recv_timeout(limit).unwrap_or(Ran::Hang)
+        }
+    }
+
+    thread_local! {
+        static FAKE: FakeServer = FakeServer::start(Script::clean(0, 0, vec![vec![]]));
+    }
+    /// The worker thread's fake server, loaded with `script`.
+    fn fake_with(script: Script) -> SocketAddr {
+        FAKE.with(|f| {
+            f.set_script(script);
+            f.addr
+        })
+    }
+    fn fake_stats() -> svs::FakeStats {
+        FAKE.with(|f| f.stats())
+    }
+
+    fn prepare_dir(state: DestState) -> (PathBuf, Snapshot) {
+        let dir = svs::fresh_dir("c10");
+        match state {
+            DestState::Absent => {}
+            DestState::Existing => std::fs::write(dir.join(DEST), PRIOR).unwrap(),
+            DestState::ExistingWithStaleTemp => {
+                std::fs::write(dir.join(DEST), PRIOR).unwrap();
+                std::fs::write(dir.join(TEMP), STALE).unwrap();
+            }
+        }
+        let snap = svs::snapshot(&dir);
+        (dir, snap)
+    }
+
+    /// Classify the destination after a run.
+    #[derive(Debug, PartialEq, Eq, Clone, Copy)]
+    enum DestNow {
+        Prior,
+        Complete,
+        Other,
+    }
+    fn classify(before: &Snapshot, after: &Snapshot, publish: &[u8]) -> DestNow {
+        match (before.get(DEST), after.get(DEST)) {
+            (b, a) if a.map(|x| &x[..]) == Some(publish) && b != a => DestNow::Complete,
+            (b, a) if a == b => DestNow::Prior,
+            _ => DestNow::Other,
+        }
+    }
+    fn describe_dest(after: &Snapshot, publish: &[u8]) -> String {
+        match after.get(DEST) {
+            None => "absent".into(),
+            Some(a) if a == PRIOR => "prior content".into(),
+            Some(a) if &a[..] == publish => "complete content".into(),
+            Some(a) => {
+                let pre = a.len() <= publish.len() && a[..] == publish[..a.len()];
+                format!("{} bytes ({}) where complete content is {} bytes", a.len(), if pre { "a strict prefix of the complete content" } else { "neither prior nor a prefix" }, publish.len())
+            }
+        }
+    }
+
+    // ------------------------------------------------------------------ accumulation
+
+    #[derive(Default)]
+    struct Acc {
+        evals: u64,
+        distinct: Vec<u64>,
+        viol: Vec<(String, String, Value)>,
+        counts: BTreeMap<String, u64>,
+        inconclusive: Vec<String>,
+        samples: Vec<Value>,
+        cells: BTreeMap<String, u64>,
+    }
+    impl Acc {
+        fn count(&mut self, k: &str, n: u64) {
+            *self.counts.entry(k.to_string()).or_insert(0) += n;
+        }
+        fn cell(&mut self, k: String) {
+            *self.cells.entry(k).or_insert(0) += 1;
+        }
+        fn merge(&mut self, o: Acc) {
+            self.evals += o.evals;
+            self.distinct.extend(o.distinct);
+            self.viol.extend(o.viol);
+            for (k, v) in o.counts {
+                *self.counts.entry(k).or_insert(0) += v;
+            }
+            for (k, v) in o.cells {
+                *self.cells.entry(k).or_insert(0) += v;
+            }
+            self.inconclusive.extend(o.inconclusive);
+            self.samples.extend(o.samples);
+        }
+        fn into_report(self, rep: &mut Report) {
+            rep.evaluations += self.evals;
+            for d in self.distinct {
+                rep.distinct(&d);
+            }
+            for (k, v) in self.counts {
+                rep.count(&k, v);
+            }
+            for (s, d, r) in self.viol {
+                rep.violation(s, d, r);
+            }
+            let mut seen = std::collections::HashSet::new();
+            for i in self.inconclusive {
+                if seen.insert(i.clone()) {
+                    rep.inconclusive(i);
+                }
+            }
+            for s in self.samples {
+                rep.sample(s);
+            }
+            rep.set("cells_executed", json!(self.cells.values().sum::<u64>()));
+            rep.set("cells_distinct", json!(self.cells.len()));
+            rep.set("cell_table", json!(self.cells));
+        }
+    }
+
+    /// Generic bounded pool: items are processed by `n` detached threads, the caller collects.
+    fn pool<I: Send + 'static>(items: Vec<I>, n: usize, wall: Duration, rep: &mut Report, work: impl Fn(I, &Arc<tokio::runtime::Runtime>, &mut Acc) + Send + Sync + 'static) -> Acc {
+        let rt = Arc::new(tokio::runtime::Builder::new_multi_thread().worker_threads(4).enable_all().build().expect("tokio runtime"));
+        let total = items.len();
+        let queue = Arc::new(Mutex::new(items));
+        queue.lock().unwrap().reverse();
+        let work = Arc::new(work);
+        let (tx, rx) = mpsc::channel::<Acc>();
+        for _ in 0..n {
+            let (queue, tx, rt, work) = (queue.clone(), tx.clone(), rt.clone(), work.clone());
+            std::thread::spawn(move || {
+                loop {
+                    let Some(item) = queue.lock().unwrap().pop() else { break };
+                    let mut acc = Acc::default();
+                    if let Err(p) = catching(|| work(item, &rt, &mut acc)) {
+                        acc.inconclusive.push(format!("harness panic: {p}"));
+                    }
+                    if tx.send(acc).is_err() {
+                        break;
+                    }
+                }
+            });
+        }
+        drop(tx);
+        let hb = Heartbeat::start();
+        let start = Instant::now();
+        let mut all = Acc::default();
+        let mut done = 0;
+        while done < total {
+            match rx.recv_timeout(wall.saturating_sub(start.elapsed()).max(Duration::from_millis(1))) {
+                Ok(a) => {
+                    all.merge(a);
+                    done += 1;
+                }
+                Err(mpsc::RecvTimeoutError::Timeout) => {
+                    rep.inconclusive(format!("wall-clock budget exhausted after {done}/{total} work items (max machine stall {} ms)", hb.max_gap_ms()));
+                    break;
+                }
+                Err(_) => break,
+            }
+        }
+        rep.set("work_items_total", json!(total));
+        rep.set("work_items_completed", json!(done));
+        std::mem::forget(rt);
+        all
+    }
+
+    pub fn run(args: &Args) -> Report {
+        match args.stage.as_str() {
+            "crash-child" => {
+                crash_child(args);
+                std::process::exit(12);
+            }
+            "crash" => run_crash(args),
+            "strace" => run_strace(args, false),
+            "inject" => run_strace(args, true),
+            _ => run_faults(args),
+        }
+    }
+
+    // ================================================================== stage faults
+
+    #[derive(Clone, Debug)]
+    struct Scn {
+        p: Puller,
+        zstd: bool,
+        n: usize,
+        chunk: usize,
+        fault: Fault,
+        dest: DestState,
+        seed: u64,
+    }
+    impl Scn {
+        fn json(&self) -> Value {
+            json!({"puller": self.p.name(), "zstd": self.zstd, "payload_len": self.n, "chunk": self.chunk, "fault": format!("{:?}", self.fault), "dest": format!("{:?}", self.dest), "seed": self.seed})
+        }
+    }
+
+    fn fault_scenario(sc: Scn, rt: &Arc<tokio::runtime::Runtime>, acc: &mut Acc) {
+        let c = content_for(sc.p, sc.zstd, sc.seed, sc.n);
+        let (script, complete) = script_for(sc.p, sc.zstd, &c, sc.chunk, &sc.fault);
+        let answered = script.cut_after_responses.unwrap_or(usize::MAX);
+        let delivered: usize = if script.cut_after_open { 0 } else { script.steps.iter().take(answered).map(|s| if let Step::Chunk { bytes, .. } = s { bytes.len() } else { 0 }).sum() };
+        let addr = fake_with(script);
+        let (dir, before) = prepare_dir(if sc.p.is_file() { sc.dest } else { DestState::Absent });
+        let dest = dir.join(DEST);
+        let reject = sc.fault == Fault::VerifyReject;
+        let trailer_len = if sc.fault == Fault::TrailerTooLong { c.logical.len() + 1 + (sc.seed % 5) as usize } else { c.trailer_len };
+        let ran = run_pull(rt, sc.p, addr, dest.clone(), reject, trailer_len, Fnv::of(&c.logical));
+        let after = svs::snapshot(&dir);
+        let stats = fake_stats();
+        let _ = std::fs::remove_dir_all(&dir);
+        let class = sc.fault.class();
+        let pn = sc.p.name();
+        acc.evals += 1;
+        acc.cell(format!("{pn}/{}/{class}/{}", if sc.zstd { "zstd" } else { "none" }, if sc.p.is_file() { format!("{:?}", sc.dest) } else { "-".into() }));
+        acc.distinct.push(hash_of(&(pn, sc.zstd, &sc.fault, sc.dest, sc.n, sc.chunk)));
+        acc.count("fake_server_next_requests", stats.nexts);
+        acc.count("fake_server_cancels_received", stats.cancels);
+        let res = match ran {
+            Ran::Done(r) => r,
+            Ran::Hang => {
+                acc.count("pulls_hung_15s", 1);
+                acc.inconclusive.push(format!("{pn} did not return within 15 s on fault class {class} (not a C10 verdict)"));
+                return;
+            }
+            Ran::Harness(e) => {
+                acc.inconclusive.push(format!("harness: {e}"));
+                return;
+            }
+        };
+        let replay = sc.json();
+        let must_fail = !(complete && !matches!(sc.fault, Fault::VerifyReject | Fault::TrailerTooLong | Fault::ZstdTruncated(_)));
+        // the cut-after-final-response cell may legitimately go either way
+        let either = matches!(sc.fault, Fault::CutAfterResp(_)) && complete;
+        if !sc.p.is_file() {
+            match res {
+                Ok(PullRes::Bytes(b)) => {
+                    if b != c.logical {
+                        acc.viol.push((
+                            format!("C10:value-from-truncated-stream:{pn}:{class}"),
+                            format!("{pn} returned Ok with {} decoded bytes; the full value is {} bytes and only {delivered} of {} stream bytes were delivered", b.len(), c.logical.len(), c.wire.len()),
+                            replay,
+                        ));
+                    } else if must_fail && !either {
+                        if delivered >= c.wire.len() && matches!(sc.p, Value | ValueAsync | TypedSlice | TypedSliceAsync) {
+                            // the whole encoding arrived before the stream failed: the decoder had a complete value
+                            acc.count("complete_value_decoded_before_stream_failure", 1);
+                        } else {
+                            acc.viol.push((
+                                format!("C10:value-despite-failed-stream:{pn}:{class}"),
+                                format!("{pn} returned Ok although the stream failed ({delivered} of {} stream bytes delivered)", c.wire.len()),
+                                replay,
+                            ));
+                        }
+                    } else {
+                        acc.count("decoding_pulls_ok_complete", 1);
+                    }
+                }
+                Ok(PullRes::Published) => {}
+                Err(e) => {
+                    if !must_fail {
+                        acc.viol.push((format!("C10:pull-failed-on-clean-stream:{pn}"), format!("{pn} failed on a clean stream: {e}"), replay));
+                    } else {
+                        acc.count("decoding_pulls_err_as_required", 1);
+                    }
+                }
+            }
+            if !after.is_empty() {
+                acc.viol.push((format!("C10:stray-file:{pn}:{class}"), format!("a value-decoding pull left files: {}", svs::describe_snapshot(&after)), sc.json()));
+            }
+            return;
+        }
+        let now = classify(&before, &after, &c.publish);
+        // a stale temp that predates this pull and was never touched by it is not "left" by it
+        let temp_left = after.contains_key(TEMP) && after.get(TEMP) != before.get(TEMP);
+        let strays: Vec<&String> = after.keys().filter(|k| k.as_str() != DEST && k.as_str() != TEMP).collect();
+        let detail = |what: &str| {
+            format!(
+                "{pn} ({}), fault {:?}, dest before: {}; result {}; dest after: {}; directory after: {}; {what}",
+                if sc.zstd { "zstd" } else { "none" },
+                sc.fault,
+                if before.contains_key(DEST) { "prior content" } else { "absent" },
+                match &res {
+                    Ok(_) => "Ok".to_string(),
+                    Err(e) => format!("Err({e})"),
+                },
+                describe_dest(&after, &c.publish),
+                svs::describe_snapshot(&after)
+            )
+        };
+        match (&res, now) {
+            (Ok(_), DestNow::Complete) if !must_fail || either => acc.count("published_complete_content", 1),
+            (Ok(_), DestNow::Complete) => acc.viol.push((format!("C10:published-after-fault:{pn}:{class}"), detail("a failing pull published the file"), replay.clone())),
+            (Ok(_), DestNow::Prior) => acc.viol.push((format!("C10:ok-without-publishing:{pn}:{class}"), detail("Ok but the destination was not replaced"), replay.clone())),
+            (Ok(_), DestNow::Other) => acc.viol.push((format!("C10:published-wrong-content:{pn}:{class}"), detail("Ok but the destination is not the complete content"), replay.clone())),
+            (Err(_), DestNow::Prior) if must_fail || either => acc.count("failed_pull_left_destination_untouched", 1),
+            (Err(e), DestNow::Prior) => acc.viol.push((format!("C10:pull-failed-on-clean-stream:{pn}"), format!("{pn} failed on a clean stream: {e}"), replay.clone())),
+            (Err(_), DestNow::Complete) => acc.viol.push((format!("C10:published-despite-error:{pn}:{class}"), detail("Err returned but the destination was replaced"), replay.clone())),
+            (Err(_), DestNow::Other) => acc.viol.push((format!("C10:dest-changed-on-failure:{pn}:{class}"), detail("the destination is neither its prior state nor the complete content"), replay.clone())),
+        }
+        if temp_left {
+            acc.viol.push((format!("C10:temp-left:{pn}:{class}"), detail("an in-process pull left the .svspart file behind"), replay.clone()));
+        } else if matches!(res, Err(_)) {
+            acc.count("failed_pull_left_no_temp", 1);
+        }
+        if !strays.is_empty() {
+            acc.viol.push((format!("C10:stray-file:{pn}:{class}"), detail("unexpected extra files"), replay));
+        }
+        if acc.samples.is_empty() && sc.seed % 97 == 0 {
+            acc.samples.push(json!({"scenario": sc.json(), "result_ok": res.is_ok(), "dest_after": describe_dest(&after, &c.publish)}));
+        }
+    }
+
+    fn run_faults(args: &Args) -> Report {
+        let mut rep = Report::new(
+            args,
+            "c10-fault-table",
+            "scripted fake SVS server x fault table {producer error after chunk k (every k) and at chunk boundary +-1 byte, connection cut \
+             after open / after the k-th response / instead of the k-th reply / mid-frame (every k), no end marker then close|error, open \
+             error, bad version/compression tag, tag mismatch, rejecting verifier, trailer longer than stream, truncated zstd frame} x \
+             pullers {pull_to_file, pull_to_beve_file, pull_to_beve_zst_file, pull_to_file_trailer_verified, pull_to_file_async, \
+             pull_to_file_verified_async, pull_to_file_trailer_verified_async; decoding: pull_value, pull_to_vec, pull_typed_slice + async} \
+             x {none,zstd} x destination {absent, existing, existing+stale temp}; oracle: directory snapshot before/after",
+        );
+        let mut rng = Rng::new(args.seed ^ 0xC10F);
+        // (payload_len, chunk) layouts: empty, single chunk, exact multiple, 3-4 chunks, larger
+        let mut layouts: Vec<(usize, usize)> = vec![(0, 16), (5, 16), (48, 16), (50, 16), (9000, 4096)];
+        if args.thorough() {
+            layouts.extend([(1, 1), (7, 1), (64, 7), (300, 64), (200_000, 65536)]);
+        }
+        let mut scns = vec![];
+        for p in FILE_PULLERS.iter().chain(DECODE_PULLERS.iter()).copied() {
+            for &zstd in p.compressions() {
+                for &(n, chunk) in &layouts {
+                    let seed = rng.below(1 << 40);
+                    let c = content_for(p, zstd, seed, n);
+                    let faults = faults_for(p, zstd, c.wire.len(), chunk);
+                    for fault in faults {
+                        let dests: Vec<DestState> = if !p.is_file() {
+                            vec![DestState::Absent]
+                        } else if matches!(fault, Fault::None) {
+                            vec![DestState::Absent, DestState::Existing, DestState::ExistingWithStaleTemp]
+                        } else {
+                            // quick: both absent and existing always; the stale-temp state on a rotating third
+                            let mut d = vec![DestState::Absent, DestState::Existing];
+                            if rng.chance(1, 3) {
+                                d.push(DestState::ExistingWithStaleTemp);
+                            }
+                            d
+                        };
+                        for dest in dests {
+                            scns.push(Scn { p, zstd, n, chunk, fault: fault.clone(), dest, seed });
+                        }
+                    }
+                }
+            }
+        }
+        rng.shuffle(&mut scns);
+        let budget = args.budget(scns.len() as u64, scns.len() as u64) as usize;
+        scns.truncate(budget.min(scns.len()).max(1));
+        rep.set("scenarios_enumerated", json!(scns.len()));
+        let wall = Duration::from_secs(if args.thorough() { 420 } else { 40 });
+        let acc = pool(scns, 10, wall, &mut rep, fault_scenario);
+        acc.into_report(&mut rep);
+        rep.exhaustive = Some(rep.counters.get("work_items_total") == rep.counters.get("work_items_completed"));
+        if rep.evaluations == 0 {
+            rep.inconclusive("no scenario executed");
+        }
+        rep
+    }
+
+    // ================================================================== stage crash (child side)
+
+    const POINTS: [&str; 7] = ["svs.temp_created", "svs.chunk_fetched", "svs.before_flush", "svs.before_sync", "svs.after_sync", "svs.before_rename", "svs.after_rename"];
+
+    /// extra = [addr, puller, dest, point, nth, reject(0/1), trailer_len, want_digest]
+    fn crash_child(args: &Args) {
+        let x = &args.extra;
+        if x.len() < 8 {
+            eprintln!("crash-child: bad arguments {x:?}");
+            std::process::exit(11);
+        }
+        let addr: SocketAddr = x[0].parse().expect("addr");
+        let p = Puller::from_name(&x[1]).expect("puller");
+        let dest = PathBuf::from(&x[2]);
+        let point = x[3].clone();
+        let nth: u64 = x[4].parse().unwrap_or(1);
+        let reject = x[5] == "1";
+        let trailer_len: usize = x[6].parse().unwrap_or(0);
+        let want_digest: u64 = x[7].parse().unwrap_or(0);
+        let seen = AtomicU64::new(0);
+        repe::verif_hooks::set_probe(Some(Arc::new(move |pt: &'static str, id: u64| {
+            if !pt.starts_with("svs.") {
+                return;
+            }
+            // unbuffered: one write(2) per event so the log survives the kill
+            let line = format!("EV {pt} {id}\n");
+            unsafe {
+                libc::write(2, line.as_ptr() as *const libc::c_void, line.len());
+            }
+            if pt == point {
+                let n = seen.fetch_add(1, Ordering::SeqCst) + 1;
+                if n == nth {
+                    let k = format!("KILL {pt} {n}\n");
+                    unsafe {
+                        libc::write(2, k.as_ptr() as *const libc::c_void, k.len());
+                        libc::kill(libc::getpid(), libc::SIGKILL);
+                    }
+                    // SIGKILL is not deliverable late: never continue past this point
+                    loop {
+                        std::thread::sleep(Duration::from_secs(1));
+                    }
+                }
+            }
+        })));
+        let res = if p.is_async() {
+            let rt = tokio::runtime::Builder::new_multi_thread().worker_threads(2).enable_all().build().expect("rt");
+            rt.block_on(async {
+                match AsyncClient::connect(addr).await {
+                    Ok(c) => pull_async(p, &c, &dest, reject, trailer_len, want_digest).await,
+                    Err(e) => {
+                        eprintln!("connect: {e}");
+                        std::process::exit(11)
+                    }
+                }
+            })
+        } else {
+            match Client::connect(addr) {
+                Ok(c) => pull_sync(p, &c, &dest, reject, trailer_len),
+                Err(e) => {
+                    eprintln!("connect: {e}");
+                    std::process::exit(11)
+                }
+            }
+        };
+        match res {
+            Ok(_) => {
+                eprintln!("RESULT ok");
+                std::process::exit(0)
+            }
+            Err(e) => {
+                eprintln!("RESULT err {e}");
+                std::process::exit(10)
+            }
+        }
+    }
+
+    struct ChildRun {
+        /// Some(signal) when killed by a signal
+        signal: Option<i32>,
+        code: Option<i32>,
+        stderr: String,
+        timed_out: bool,
+    }
+
+    fn wait_bounded(mut ch: std::process::Child, limit: Duration) -> ChildRun {
+        use std::io::Read;
+        use std::os::unix::process::ExitStatusExt;
+        let mut err = ch.stderr.take();
+        let reader = std::thread::spawn(move || {
+            let mut s = String::new();
+            if let Some(e) = err.as_mut() {
+                let mut b = Vec::new();
+                let _ = e.read_to_end(&mut b);
+                s = String::from_utf8_lossy(&b).into_owned();
+            }
+            s
+        });
+        let start = Instant::now();
+        let mut timed_out = false;
+        let status = loop {
+            match ch.try_wait() {
+                Ok(Some(s)) => break Some(s),
+                Ok(None) => {
+                    if start.elapsed() > limit {
+                        let _ = ch.kill();
+                        timed_out = true;
+                        break ch.wait().ok();
+                    }
+                    std::thread::sleep(Duration::from_millis(3));
+                }
+                Err(_) => break None,
+            }
+        };
+        let stderr = reader.join().unwrap_or_default();
+        ChildRun { signal: status.and_then(|s| s.signal()), code: status.and_then(|s| s.code()), stderr, timed_out }
+    }
+
+    fn child_args(seed: u64, addr: SocketAddr, p: Puller, dest: &Path, point: &str, nth: u64, reject: bool, trailer_len: usize, digest: u64) -> Vec<String> {
+        vec![
+            "c10".into(),
+            "--stage".into(),
+            "crash-child".into(),
+            "--seed".into(),
+            seed.to_string(),
+            addr.to_string(),
+            p.name().into(),
+            dest.to_string_lossy().into_owned(),
+            point.into(),
+            nth.to_string(),
+            (reject as u8).to_string(),
+            trailer_len.to_string(),
+            digest.to_string(),
+        ]
+    }
+
+    #[derive(Clone, Debug)]
+    struct Cell {
+        p: Puller,
+        zstd: bool,
+        n: usize,
+        chunk: usize,
+        dest: DestState,
+        point: &'static str,
+        nth: u64,
+        seed: u64,
+    }
+
+    fn crash_cell(cell: Cell, _rt: &Arc<tokio::runtime::Runtime>, acc: &mut Acc) {
+        let c = content_for(cell.p, cell.zstd, cell.seed, cell.n);
+        let (script, _) = script_for(cell.p, cell.zstd, &c, cell.chunk, &Fault::None);
+        let addr = fake_with(script);
+        let (dir, before) = prepare_dir(cell.dest);
+        let dest = dir.join(DEST);
+        let exe = std::env::current_exe().expect("current_exe");
+        let ch = std::process::Command::new(&exe)
+            .args(child_args(cell.seed, addr, cell.p, &dest, cell.point, cell.nth, false, c.trailer_len, Fnv::of(&c.logical)))
+            .stdin(std::process::Stdio::null())
+            .stdout(std::process::Stdio::null())
+            .stderr(std::process::Stdio::piped())
+            .spawn();
+        let ch = match ch {
+            Ok(c) => c,
+            Err(e) => {
+                acc.inconclusive.push(format!("spawn child: {e}"));
+                return;
+            }
+        };
+        let run = wait_bounded(ch, Duration::from_secs(20));
+        let after = svs::snapshot(&dir);
+        let _ = std::fs::remove_dir_all(&dir);
+        let pn = cell.p.name();
+        let events: Vec<&str> = run.stderr.lines().filter(|l| l.starts_with("EV ")).map(|l| l.split(' ').nth(1).unwrap_or("")).collect();
+        acc.count("probe_events_observed_in_children", events.len() as u64);
+        let replay = json!({"puller": pn, "zstd": cell.zstd, "payload_len": cell.n, "chunk": cell.chunk, "dest": format!("{:?}", cell.dest), "kill_point": cell.point, "nth": cell.nth, "seed": cell.seed});
+        if run.timed_out {
+            acc.inconclusive.push(format!("child {pn} @ {}#{} exceeded 20 s", cell.point, cell.nth));
+            return;
+        }
+        let cell_id = format!("{pn}/{}/{:?}/{}#{}", if cell.zstd { "zstd" } else { "none" }, cell.dest, cell.point, cell.nth);
+        let now = classify(&before, &after, &c.publish);
+        let strays: Vec<&String> = after.keys().filter(|k| k.as_str() != DEST && k.as_str() != TEMP).collect();
+        let dir_desc = svs::describe_snapshot(&after);
+        let order: Vec<String> = {
+            let mut o: Vec<String> = vec![];
+            for e in &events {
+                if o.last().map(|l| l.as_str()) != Some(*e) {
+                    o.push(e.to_string());
+                }
+            }
+            o
+        };
+        if cell.point == "none" {
+            // control: the uninterrupted child must publish the complete content
+            acc.evals += 1;
+            acc.cell(cell_id);
+            acc.distinct.push(hash_of(&(pn, cell.zstd, cell.dest, "control")));
+            if run.code != Some(0) || now != DestNow::Complete || after.contains_key(TEMP) {
+                acc.viol.push((
+                    format!("C10:control-pull-did-not-publish:{pn}"),
+                    format!("uninterrupted child exit={:?} signal={:?}; destination: {}; directory {dir_desc}; stderr tail: {}", run.code, run.signal, describe_dest(&after, &c.publish), trunc(run.stderr.lines().last().unwrap_or(""), 160)),
+                    replay,
+                ));
+            } else {
+                acc.count("control_children_published", 1);
+                for pt in POINTS {
+                    if !events.contains(&pt) {
+                        acc.inconclusive.push(format!("probe point {pt} never fired in an uninterrupted {pn}"));
+                    }
+                }
+            }
+            return;
+        }
+        if run.signal != Some(libc::SIGKILL) || !run.stderr.contains("KILL ") {
+            // the point was not reached the n-th time
+            acc.inconclusive.push(format!("kill point {}#{} never reached in {pn} (child exit={:?} signal={:?})", cell.point, cell.nth, run.code, run.signal));
+            return;
+        }
+        acc.evals += 1;
+        acc.cell(cell_id);
+        acc.count("children_killed_at_point", 1);
+        acc.distinct.push(hash_of(&(pn, cell.zstd, cell.dest, cell.point, cell.nth, cell.n, cell.chunk)));
+        let allowed = if cell.point == "svs.after_rename" { DestNow::Complete } else { DestNow::Prior };
+        let d = format!(
+            "{pn} ({}) killed at {}#{}; probe order seen: {}; destination before: {}; after: {}; directory after: {dir_desc}",
+            if cell.zstd { "zstd" } else { "none" },
+            cell.point,
+            cell.nth,
+            order.join(" > "),
+            if before.contains_key(DEST) { "prior content" } else { "absent" },
+            describe_dest(&after, &c.publish)
+        );
+        match now {
+            DestNow::Other => acc.viol.push((format!("C10:crash-partial-dest:{pn}:{}", cell.point), d, replay)),
+            n if n != allowed => {
+                let what = if n == DestNow::Complete { "crash-published-early" } else { "crash-not-published-after-rename" };
+                acc.viol.push((format!("C10:{what}:{pn}:{}", cell.point), d, replay))
+            }
+            DestNow::Prior => acc.count("killed_before_rename_destination_prior", 1),
+            DestNow::Complete => acc.count("killed_after_rename_destination_complete", 1),
+        }
+        if after.contains_key(TEMP) {
+            acc.count("stale_temp_after_sigkill_allowed", 1);
+        }
+        if !strays.is_empty() {
+            acc.viol.push((format!("C10:stray-file:{pn}:{}", cell.point), format!("unexpected files after the crash: {dir_desc}"), json!({"cell": format!("{cell:?}")})));
+        }
+        if acc.samples.is_empty() && cell.seed % 13 == 0 {
+            acc.samples.push(json!({"cell": format!("{cell:?}"), "probe_order": order, "directory_after": dir_desc}));
+        }
+    }
+
+    fn run_crash(args: &Args) -> Report {
+        let mut rep = Report::new(
+            args,
+            "c10-crash-points",
+            "each file puller x {none,zstd} x destination {absent, existing} x kill point {svs.temp_created, svs.chunk_fetched#1..m, \
+             svs.before_flush, svs.before_sync, svs.after_sync, svs.before_rename, svs.after_rename} executed in a child process that \
+             SIGKILLs itself inside the probe callback; oracle: directory snapshot - destination exactly prior before the rename point, \
+             exactly complete after it, never anything else (a stale .svspart is tolerated after SIGKILL); plus one uninterrupted control \
+             child per puller/compression/destination",
+        );
+        let mut rng = Rng::new(args.seed ^ 0xC10C);
+        let layouts: Vec<(usize, usize)> = if args.thorough() { vec![(40, 16), (0, 16), (20000, 4096), (9, 1), (300_000, 65536), (48, 16)] } else { vec![(40, 16), (0, 16), (20000, 4096)] };
+        let mut cells = vec![];
+        for p in FILE_PULLERS {
+            for &zstd in p.compressions() {
+                for &(n, chunk) in &layouts {
+                    let dests: &[DestState] = &[DestState::Absent, DestState::Existing, DestState::ExistingWithStaleTemp];
+                    for &dest in dests {
+                        let seed = rng.below(1 << 40);
+                        let m = svs::split_chunks(&content_for(p, zstd, seed, n).wire, chunk).len() as u64;
+                        cells.push(Cell { p, zstd, n, chunk, dest, point: "none", nth: 0, seed });
+                        for point in POINTS {
+                            let nths: Vec<u64> = if point == "svs.chunk_fetched" { (1..=m.min(9)).collect() } else { vec![1] };
+                            for nth in nths {
+                                cells.push(Cell { p, zstd, n, chunk, dest, point, nth, seed });
+                            }
+                        }
+                    }
+                }
+            }
+        }
+        rng.shuffle(&mut cells);
+        let budget = args.budget(cells.len() as u64, cells.len() as u64) as usize;
+        cells.truncate(budget.min(cells.len()).max(1));
+        rep.set("cells_enumerated", json!(cells.len()));
+        let wall = Duration::from_secs(if args.thorough() { 420 } else { 40 });
+        let acc = pool(cells, 8, wall, &mut rep, crash_cell);
+        acc.into_report(&mut rep);
+        rep.exhaustive = Some(rep.counters.get("cells_enumerated") == rep.counters.get("cells_executed"));
+        if rep.get_count("children_killed_at_point") == 0 {
+            rep.inconclusive("no child was killed at a probe point");
+        }
+        rep
+    }
+
+    // ================================================================== stage strace / inject
+
+    #[derive(Debug, Clone)]
+    struct Sys {
+        pid: u32,
+        name: String,
+        args: String,
+        ret: i64,
+        /// line index where the call started / completed
+        start: usize,
+        end: usize,
+    }
+
+    /// Parse `strace -f -o` output, merging `<unfinished ...>` / `<... resumed>` pairs.
+    fn parse_strace(text: &str) -> Vec<Sys> {
+        let mut out = vec![];
+        let mut pending: BTreeMap<u32, (String, usize)> = BTreeMap::new();
+        for (idx, line) in text.lines().enumerate() {
+            let line = line.trim_end();
+            let Some((pid_s, rest)) = line.split_once(' ') else { continue };
+            let Ok(pid) = pid_s.trim().parse::<u32>() else { continue };
+            let rest = rest.trim_start();
+            if rest.starts_with("+++") || rest.starts_with("---") {
+                continue;
+            }
+            let (full, start) = if let Some(r) = rest.strip_prefix("<... ") {
+                let Some((_, tail)) = r.split_once(" resumed>") else { continue };
+                let Some((head, st)) = pending.remove(&pid) else { continue };
+                (format!("{head}{tail}"), st)
+            } else if let Some(i) = rest.find(" <unfinished ...>") {
+                pending.insert(pid, (rest[..i].to_string(), idx));
+                continue;
+            } else {
+                (rest.to_string(), idx)
+            };
+            let Some(op) = full.find('(') else { continue };
+            let name = full[..op].to_string();
+            let Some(eq) = full.rfind(" = ") else { continue };
+            let ret_s = full[eq + 3..].split_whitespace().next().unwrap_or("");
+            let ret = ret_s.parse::<i64>().unwrap_or(if ret_s == "?" { i64::MIN } else { -1 });
+            let close = full[..eq].rfind(')').unwrap_or(eq);
+            let args = full[op + 1..close].to_string();
+            out.push(Sys { pid, name, args, ret, start, end: idx });
+        }
+        out
+    }
+
+    fn quoted(args: &str) -> Vec<String> {
+        let mut v = vec![];
+        let mut cur: Option<String> = None;
+        let mut esc = false;
+        for ch in args.chars() {
+            match (&mut cur, ch) {
+                (Some(s), c) if esc => {
+                    s.push(c);
+                    esc = false;
+                }
+                (Some(_), '\\') => esc = true,
+                (Some(_), '"') => v.push(cur.take().unwrap()),
+                (Some(s), c) => s.push(c),
+                (None, '"') => cur = Some(String::new()),
+                _ => {}
+            }
+        }
+        v
+    }
+
+    #[derive(Default, Debug)]
+    struct TraceFacts {
+        temp_opened: bool,
+        temp_writes: usize,
+        temp_syncs: usize,
+        rename_to_dest: usize,
+        rename_ok: bool,
+        unlink_temp: bool,
+        problems: Vec<(String, String)>,
+        syscalls_seen: BTreeMap<String, usize>,
+    }
+
+    /// Check the trace against the commit specification.
+    fn analyse_trace(sys: &[Sys], dest: &str, temp: &str) -> TraceFacts {
+        let mut f = TraceFacts::default();
+        let mut temp_fd: Option<i64> = None;
+        let mut last_write_end: Option<usize> = None;
+        let mut sync_after_last_write: Option<usize> = None;
+        for s in sys {
+            *f.syscalls_seen.entry(s.name.clone()).or_insert(0) += 1;
+            let first_int = s.args.split(',').next().and_then(|a| a.trim().parse::<i64>().ok());
+            match s.name.as_str() {
+                "openat" | "open" | "creat" => {
+                    let paths = quoted(&s.args);
+                    let writing = s.args.contains("O_WRONLY") || s.args.contains("O_RDWR") || s.args.contains("O_CREAT") || s.args.contains("O_TRUNC") || s.name == "creat";
+                    if paths.iter().any(|p| p == temp) && s.ret >= 0 {
+                        f.temp_opened = true;
+                        temp_fd = Some(s.ret);
+                        last_write_end = None;
+                        sync_after_last_write = None;
+                    }
+                    if paths.iter().any(|p| p == dest) && writing && s.ret >= 0 {
+                        f.problems.push(("dest-opened-for-write".into(), format!("the destination itself was opened for writing: {}({})", s.name, trunc(&s.args, 160))));
+                    }
+                }
+                "write" | "pwrite64" | "writev" | "pwritev" | "pwritev2" => {
+                    if first_int.is_some() && first_int == temp_fd && s.ret > 0 {
+                        f.temp_writes += 1;
+                        last_write_end = Some(s.end);
+                        if let Some(sy) = sync_after_last_write.take() {
+                            f.problems.push(("write-after-sync".into(), format!("the temp file was written (trace line {}) after its fsync (line {sy})", s.start + 1)));
+                        }
+                    }
+                }
+                "fsync" | "fdatasync" => {
+                    if first_int.is_some() && first_int == temp_fd && s.ret == 0 {
+                        f.temp_syncs += 1;
+                        sync_after_last_write = Some(s.end);
+                    }
+                }
+                "close" => {
+                    if first_int.is_some() && first_int == temp_fd {
+                        temp_fd = None;
+                    }
+                }
+                "rename" | "renameat" | "renameat2" => {
+                    let paths = quoted(&s.args);
+                    if paths.last().map(|p| p == dest).unwrap_or(false) {
+                        f.rename_to_dest += 1;
+                        f.rename_ok |= s.ret == 0;
+                        let from_temp = paths.first().map(|p| p == temp).unwrap_or(false);
+                        if !from_temp {
+                            f.problems.push(("rename-from-elsewhere".into(), format!("rename onto the destination from {:?}", paths.first())));
+                        }
+                        match sync_after_last_write {
+                            Some(sy) if sy < s.start => {}
+                            _ => f.problems.push((
+                                "rename-before-sync".into(),
+                                format!(
+                                    "rename(tmp -> dest) at trace line {} without a completed fsync/fdatasync of the temp file after its last write (last write line {:?}, {} syncs seen)",
+                                    s.start + 1,
+                                    last_write_end.map(|x| x + 1),
+                                    f.temp_syncs
+                                ),
+                            )),
+                        }
+                    }
+                }
+                "unlink" | "unlinkat" => {
+                    if quoted(&s.args).iter().any(|p| p == temp) && s.ret == 0 {
+                        f.unlink_temp = true;
+                    }
+                }
+                _ => {}
+            }
+        }
+        f
+    }
+
+    #[derive(Clone, Debug)]
+    struct TraceRun {
+        p: Puller,
+        zstd: bool,
+        fault: Fault,
+        dest: DestState,
+        seed: u64,
+        /// Some((syscall, when)) for the inject stage
+        inject: Option<(String, u64)>,
+    }
+
+    const TRACE_SET: &str = "trace=open,openat,creat,write,pwrite64,writev,pwritev,fsync,fdatasync,rename,renameat,renameat2,unlink,unlinkat,close,exit_group";
+
+    struct Traced {
+        run: ChildRun,
+        text: String,
+        before: Snapshot,
+        after: Snapshot,
+        content: Content,
+        dest: String,
+        temp: String,
+        /// the script delivers the whole stream with an end marker and nothing vetoes the commit
+        expect_ok: bool,
+    }
+
+    fn traced_child(tr: &TraceRun, n: usize, chunk: usize) -> Result<Traced, String> {
+        let c = content_for(tr.p, tr.zstd, tr.seed, n);
+        let (script, complete) = script_for(tr.p, tr.zstd, &c, chunk, &tr.fault);
+        let expect_ok = complete && !matches!(tr.fault, Fault::VerifyReject | Fault::TrailerTooLong | Fault::ZstdTruncated(_));
+        let addr = fake_with(script);
+        let (dir, before) = prepare_dir(tr.dest);
+        let dest = dir.join(DEST);
+        let out = dir.with_extension("strace");
+        let reject = tr.fault == Fault::VerifyReject;
+        let trailer_len = if tr.fault == Fault::TrailerTooLong { c.logical.len() + 3 } else { c.trailer_len };
+        let exe = std::env::current_exe().map_err(|e| e.to_string())?;
+        let mut cmd = std::process::Command::new("strace");
+        cmd.arg("-f").arg("-s").arg("0").arg("-o").arg(&out).arg("-e").arg(TRACE_SET);
+        if let Some((sc, when)) = &tr.inject {
+            cmd.arg("-e").arg(format!("inject={sc}:signal=SIGKILL:when={when}"));
+        }
+        cmd.arg(&exe).args(child_args(tr.seed, addr, tr.p, &dest, "none", 0, reject, trailer_len, Fnv::of(&c.logical)));
+        cmd.stdin(std::process::Stdio::null()).stdout(std::process::Stdio::null()).stderr(std::process::Stdio::piped());
+        let ch = cmd.spawn().map_err(|e| format!("strace unavailable: {e}"))?;
+        let run = wait_bounded(ch, Duration::from_secs(30));
+        let after = svs::snapshot(&dir);
+        let text = std::fs::read_to_string(&out).unwrap_or_default();
+        let _ = std::fs::remove_file(&out);
+        let _ = std::fs::remove_dir_all(&dir);
+        Ok(Traced { run, text, before, after, content: c, dest: dest.to_string_lossy().into_owned(), temp: dir.join(TEMP).to_string_lossy().into_owned(), expect_ok })
+    }
+
+    fn ptrace_denied(stderr: &str) -> bool {
+        let s = stderr.to_lowercase();
+        s.contains("operation not permitted") || s.contains("ptrace(") || s.contains("permission denied")
+    }
+
+    fn strace_cell(tr: TraceRun, _rt: &Arc<tokio::runtime::Runtime>, acc: &mut Acc) {
+        let (n, chunk) = (20_000usize, 4096usize);
+        let t = match traced_child(&tr, n, chunk) {
+            Ok(t) => t,
+            Err(e) => {
+                acc.inconclusive.push(e);
+                return;
+            }
+        };
+        let pn = tr.p.name();
+        let class = tr.fault.class();
+        let replay = json!({"puller": pn, "zstd": tr.zstd, "fault": format!("{:?}", tr.fault), "dest": format!("{:?}", tr.dest), "seed": tr.seed, "inject": format!("{:?}", tr.inject)});
+        if t.run.timed_out {
+            acc.inconclusive.push(format!("traced child {pn}/{class} exceeded 30 s"));
+            return;
+        }
+        let sys = parse_strace(&t.text);
+        if sys.is_empty() {
+            let why = if ptrace_denied(&t.run.stderr) { "ptrace denied" } else { "empty trace" };
+            acc.inconclusive.push(format!("strace produced no syscalls ({why}): {}", trunc(t.run.stderr.lines().next().unwrap_or(""), 160)));
+            return;
+        }
+        acc.count("syscalls_parsed", sys.len() as u64);
+        let f = analyse_trace(&sys, &t.dest, &t.temp);
+        let now = classify(&t.before, &t.after, &t.content.publish);
+        let dir_desc = svs::describe_snapshot(&t.after);
+        if let Some((sc, when)) = &tr.inject {
+            // hook-independent crash point: killed on entry to the n-th <syscall>
+            if t.run.signal != Some(libc::SIGKILL) && t.run.code != Some(128 + libc::SIGKILL) && !t.text.contains("killed by SIGKILL") {
+                acc.count("inject_points_not_reached", 1);
+                return;
+            }
+            acc.evals += 1;
+            acc.cell(format!("{pn}/{}/{:?}/inject:{sc}", if tr.zstd { "zstd" } else { "none" }, tr.dest));
+            acc.count("children_killed_by_injection", 1);
+            acc.distinct.push(hash_of(&(pn, tr.zstd, tr.dest, sc, when)));
+            let renamed = f.rename_ok;
+            for (k, d) in &f.problems {
+                acc.viol.push((format!("C10:trace:{k}:{pn}"), format!("{pn} (killed on entry to {sc} #{when}): {d}"), replay.clone()));
+            }
+            match now {
+                DestNow::Other => acc.viol.push((
+                    format!("C10:crash-partial-dest:{pn}:inject-{sc}"),
+                    format!("{pn} killed on entry to {sc} #{when}: destination {}; directory {dir_desc}", describe_dest(&t.after, &t.content.publish)),
+                    replay,
+                )),
+                DestNow::Complete if !renamed => acc.viol.push((
+                    format!("C10:crash-published-early:{pn}:inject-{sc}"),
+                    format!("{pn} killed on entry to {sc} #{when}: destination is complete although no successful rename(tmp, dest) is in the trace"),
+                    replay,
+                )),
+                DestNow::Complete => acc.count("killed_after_rename_destination_complete", 1),
+                DestNow::Prior => acc.count("killed_before_rename_destination_prior", 1),
+            }
+            return;
+        }
+        acc.evals += 1;
+        acc.cell(format!("{pn}/{}/{class}/{:?}/strace", if tr.zstd { "zstd" } else { "none" }, tr.dest));
+        acc.distinct.push(hash_of(&(pn, tr.zstd, &tr.fault, tr.dest)));
+        for (k, v) in &f.syscalls_seen {
+            acc.count(&format!("syscall_{k}"), *v as u64);
+        }
+        let facts = format!("temp_opened={} temp_writes={} temp_syncs={} renames_onto_dest={} unlink_temp={}", f.temp_opened, f.temp_writes, f.temp_syncs, f.rename_to_dest, f.unlink_temp);
+        for (k, d) in &f.problems {
+            acc.viol.push((format!("C10:trace:{k}:{pn}"), format!("{pn} ({class}): {d}; {facts}"), replay.clone()));
+        }
+        if t.expect_ok {
+            if t.run.code != Some(0) {
+                acc.inconclusive.push(format!("traced clean pull {pn} exited {:?}/{:?}: {}", t.run.code, t.run.signal, trunc(t.run.stderr.lines().last().unwrap_or(""), 120)));
+                return;
+            }
+            if !f.temp_opened || f.rename_to_dest == 0 {
+                acc.viol.push((
+                    format!("C10:trace:no-temp-then-rename:{pn}"),
+                    format!("a successful {pn} did not go through create(temp) ... rename(temp, dest): {facts}; destination {}", describe_dest(&t.after, &t.content.publish)),
+                    replay.clone(),
+                ));
+            } else if f.problems.is_empty() {
+                acc.count("clean_traces_conforming_write_sync_rename", 1);
+            }
+            if now != DestNow::Complete {
+                acc.viol.push((format!("C10:published-wrong-content:{pn}:none"), format!("traced clean pull: destination {}", describe_dest(&t.after, &t.content.publish)), replay));
+            }
+        } else {
+            if t.run.code == Some(0) {
+                acc.viol.push((format!("C10:published-after-fault:{pn}:{class}"), format!("traced failing pull returned Ok; destination {}", describe_dest(&t.after, &t.content.publish)), replay.clone()));
+            }
+            if f.rename_to_dest > 0 {
+                acc.viol.push((format!("C10:trace:rename-on-failed-pull:{pn}:{class}"), format!("a failing pull issued rename onto the destination; {facts}"), replay.clone()));
+            } else {
+                acc.count("failing_traces_without_rename_onto_dest", 1);
+            }
+            if now != DestNow::Prior {
+                acc.viol.push((format!("C10:dest-changed-on-failure:{pn}:{class}"), format!("traced failing pull: destination {}", describe_dest(&t.after, &t.content.publish)), replay));
+            }
+            if f.temp_opened && f.unlink_temp {
+                acc.count("failing_traces_unlinking_temp", 1);
+            }
+        }
+        if acc.samples.is_empty() && t.expect_ok {
+            let lines: Vec<String> = sys
+                .iter()
+                .filter(|s| s.args.contains(".svspart") || matches!(s.name.as_str(), "fsync" | "fdatasync") || s.name.starts_with("rename"))
+                .take(12)
+                .map(|s| format!("{} {}({}) = {}", s.pid, s.name, trunc(&s.args.replace(&t.dest, "<dest>"), 100), s.ret))
+                .collect();
+            acc.samples.push(json!({"puller": pn, "zstd": tr.zstd, "commit_syscalls": lines}));
+        }
+    }
+
+    fn strace_available() -> Result<(), String> {
+        let out = std::process::Command::new("strace").arg("-f").arg("-o").arg("/dev/null").arg("-e").arg("trace=write").arg("true").output();
+        match out {
+            Err(e) => Err(format!("strace not runnable: {e}")),
+            Ok(o) if !o.status.success() => Err(format!("strace cannot trace here: {}", trunc(String::from_utf8_lossy(&o.stderr).lines().next().unwrap_or(""), 200))),
+            Ok(_) => Ok(()),
+        }
+    }
+
+    fn run_strace(args: &Args, inject: bool) -> Report {
+        let mut rep = Report::new(
+            args,
+            if inject { "c10-strace-inject" } else { "c10-strace-spec" },
+            if inject {
+                "child pulls under strace -f with inject=<syscall>:signal=SIGKILL:when=N for syscall in {write, fsync, rename*, openat, close, \
+                 unlink}: a hook-independent enumeration of crash points; oracle: destination exactly prior or exactly complete (complete only \
+                 with a successful rename in the trace)"
+            } else {
+                "child pulls (clean, and failing: producer error after chunk 1, cut after response 1, no end marker, rejecting verifier, trailer \
+                 too long) under strace -f -e trace=open*,write*,fsync,fdatasync,rename*,unlink*,close; trace specification: every write to \
+                 the temp fd precedes a completed fsync/fdatasync of that fd which precedes rename(tmp, dest); no write to the temp fd after \
+                 the sync; the destination is never opened for writing; no rename onto dest on any failing run"
+            },
+        );
+        if let Err(e) = strace_available() {
+            rep.inconclusive(e);
+            return rep;
+        }
+        let mut rng = Rng::new(args.seed ^ 0xC105);
+        let mut runs = vec![];
+        for p in FILE_PULLERS {
+            for &zstd in p.compressions() {
+                if inject {
+                    let syscalls: &[(&str, u64)] = if args.thorough() {
+                        &[("write", 16), ("fsync", 2), ("rename", 2), ("openat", 40), ("close", 30), ("unlink", 2), ("exit_group", 1)]
+                    } else {
+                        &[("write", 8), ("fsync", 1), ("rename", 1), ("exit_group", 1)]
+                    };
+                    for (sc, maxn) in syscalls {
+                        for when in 1..=*maxn {
+                            let dest = if rng.coin() { DestState::Existing } else { DestState::Absent };
+                            runs.push(TraceRun { p, zstd, fault: Fault::None, dest, seed: rng.below(1 << 39) * 2, inject: Some((sc.to_string(), when)) });
+                        }
+                    }
+                } else {
+                    let mut faults = vec![Fault::None, Fault::ErrAfterChunks(1), Fault::CutAfterResp(1), Fault::NoEndClose];
+                    if p.verified() {
+                        faults.push(Fault::VerifyReject);
+                    }
+                    if p.trailer() {
+                        faults.push(Fault::TrailerTooLong);
+                    }
+                    if args.thorough() {
+                        faults.extend([Fault::ErrAfterChunks(0), Fault::CutMidFrame(1), Fault::NoEndError, Fault::CutNoReply(2), Fault::OpenError]);
+                    }
+                    for fault in faults {
+                        let dests: Vec<DestState> = if args.thorough() || fault == Fault::None { vec![DestState::Absent, DestState::Existing] } else { vec![if rng.coin() { DestState::Existing } else { DestState::Absent }] };
+                        for dest in dests {
+                            runs.push(TraceRun { p, zstd, fault: fault.clone(), dest, seed: rng.below(1 << 39) * 2, inject: None });
+                        }
+                    }
+                }
+            }
+        }
+        rng.shuffle(&mut runs);
+        let budget = args.budget(runs.len() as u64, runs.len() as u64) as usize;
+        runs.truncate(budget.min(runs.len()).max(1));
+        rep.set("traced_runs_enumerated", json!(runs.len()));
+        let wall = Duration::from_secs(if args.thorough() { 420 } else { 40 });
+        let acc = pool(runs, 6, wall, &mut rep, strace_cell);
+        acc.into_report(&mut rep);
+        if rep.evaluations == 0 && rep.inconclusive.is_empty() {
+            rep.inconclusive("no traced run was evaluated");
+        }
+        rep
+    }
 }
